@@ -76,6 +76,17 @@ theorem rw_safety {s : State} (h : Reach cfg s) :
   · rw [inv.wai]; exact READER_COUNT_pack _ _ (b _)
   · rw [inv.wai]; exact WRITER_COUNT_pack _ _ (b _) (b _)
 
+/-- the ghost `held` is the API-level notion of holding: a thread that is between the TRUE return of
+    an acquire call and its unlock call (it is suspended at the entry of the unlock function), or
+    about to return TRUE from an acquire call, is counted as a holder of that mode; every other
+    thread that is at the entry of an acquire call holds nothing -/
+theorem holders_are_api_holders {s : State} {t : Tid} {th : Thread} (h : Reach cfg s) (hth : s.threads[t]? = some th) :
+    (th.pc = .lock .runlock → th.held = .r) ∧ (th.pc = .lock .wunlock → th.held = .w) ∧
+    (∀ op, op.isAcq = true → th.pc = .atUnlock op true → th.held = op.heldBy) ∧
+    (∀ op, op.isAcq = true → th.pc = .lock op → th.held = .none) := by
+  rw [cfg_is_reference.1] at h
+  exact tok_holder ((reach_inv h).tok th (List.mem_of_getElem? hth))
+
 /-! ## c. trylock -/
 
 /-- `p_rwlock_reader_trylock` decides in its first step (when it gets the internal mutex): the value
